@@ -46,6 +46,13 @@ def plan(tier):
     return {"cases": 30, "timeout": 400, "wall_budget": 65, "recheck": 2, "nproc": 6}
 
 def gen_case(rng, tier, index):
+    if index % 5 == 4:
+        # live-build-id scenario: git source, prediction by `git ls-remote`, upstream may move
+        # right after the prediction (wrong prediction -> Bob must restart)
+        return {"live": True, "move": rng.choice(["after-lsremote", "after-lsremote", "before", "never"]),
+                "drop": rng.choice([["lib", "root"], ["lib"], ["root"], []]), "jobs": rng.choice([1, 2, 4]),
+                "seed": rng.getrandbits(32), "mode": rng.choice(["yes", "yes", "deps", "forced-fallback"]),
+                "salt": "%x" % rng.getrandbits(20)}
     feats = {"checkoutscript"} | set(rng.sample(["import", "vars", "tools", "provideVars", "diamond", "fingerprint", "fingerprint",
                                                  "nonreloc", "depenv", "classes"], rng.randint(2, 6)))
     model = projgen.gen_valid_project(rng, nmin=3, nmax=6, features=feats)
@@ -89,6 +96,119 @@ def all_reloc(model):
     workspaces at different locations."""
     return all(r.get("relocatable") is not False for r in model["recipes"].values())
 
+def _upstream_moves(arg):
+    """World hook (runs inside the Bob child right after `git ls-remote`): the
+    upstream maintainer pushes a new commit."""
+    import subprocess
+    from .. import loopsim
+    env = dict(loopsim.BASE_ENV)
+    env["GIT_AUTHOR_DATE"] = env["GIT_COMMITTER_DATE"] = "2020-02-02T00:00:00Z"
+    w = arg["work"]
+    with open(os.path.join(w, "a.txt"), "w") as f:
+        f.write("moved-%s\n" % arg["salt"])
+    for cmd in (["git", "commit", "-q", "-am", "moved"], ["git", "push", "-q", "origin", "master"]):
+        subprocess.run(cmd, cwd=w, env=env, stdin=subprocess.DEVNULL, stdout=subprocess.DEVNULL, stderr=subprocess.DEVNULL)
+
+def _run_live(case, top, stats, log):
+    import gzip, io, json, tarfile, subprocess, yaml
+    from .. import loopsim
+    env = dict(loopsim.BASE_ENV)
+    def git(cwd, *a):
+        p = subprocess.run(["git"] + list(a), cwd=cwd, env=env, stdin=subprocess.DEVNULL, stdout=subprocess.PIPE, stderr=subprocess.PIPE)
+        if p.returncode != 0:
+            raise common.HarnessError("git %s: %s" % (a, p.stderr.decode()[-200:]))
+    bare = os.path.join(top, "up", "lib.git")
+    work = os.path.join(top, "upwork")
+    os.makedirs(work); os.makedirs(os.path.dirname(bare))
+    git(work, "init", "-q", "-b", "master")
+    common.write_file(os.path.join(work, "a.txt"), "v1-%s\n" % case["salt"])
+    git(work, "add", "-A"); git(work, "commit", "-q", "-m", "c1")
+    git(top, "clone", "-q", "--bare", work, bare)
+    git(work, "remote", "add", "origin", bare)
+    arch = os.path.join(top, "archive")
+    os.makedirs(arch)
+    D = projgen.DUMP_FN
+    files = {
+        "config.yaml": yaml.safe_dump({"bobMinimumVersion": "1.3.dev999"}),
+        "default.yaml": yaml.safe_dump({"archive": {"backend": "file", "path": arch}}),
+        "recipes/lib.yaml": yaml.safe_dump({"checkoutSCM": {"scm": "git", "url": bare, "branch": "master"},
+                                            "buildScript": "IFS= read -r x < \"$1/a.txt\"\necho \"lib built from $x\" > b.txt\n",
+                                            "packageScript": D + "__dump \"$1\" > p.txt\n"}),
+        "recipes/mid.yaml": yaml.safe_dump({"depends": ["lib"], "buildScript": D + "__dump \"$2\" > b.txt\n",
+                                            "packageScript": D + "__dump \"$1\" > p.txt\n"}),
+        "recipes/root.yaml": yaml.safe_dump({"root": True, "depends": ["mid", "lib"],
+                                             "buildScript": D + "__dump \"$2\" > b.txt; __dump \"$3\" >> b.txt\n",
+                                             "packageScript": D + "__dump \"$1\" > p.txt\n"}),
+    }
+    def mk(path):
+        for p, c in files.items():
+            common.write_file(os.path.join(path, p), c)
+    pa = os.path.join(top, "a", "proj"); pb = os.path.join(top, "elsewhere", "b", "proj")
+    mk(pa); mk(pb)
+    r = buildsim.bob(pa, ["dev", "--upload", "--download", "no", "root"], {"sched_seed": 1})
+    if r.rc != 0:
+        raise common.HarnessError("uploader build failed: " + r.output[-400:])
+    # remove selected artifacts so that the downloader has to build (and check out) something
+    for art in _artifacts(arch):
+        try:
+            with tarfile.open(art, "r:gz") as tf:
+                meta = json.loads(gzip.decompress(tf.extractfile("meta/audit.json.gz").read()))["artifact"]["meta"]
+        except Exception:
+            continue
+        if meta.get("recipe") in case["drop"]:
+            os.unlink(art)
+            stats.inc("live_artifacts_dropped")
+    cfg = {"sched_seed": case["seed"], "durations": [0, 0.001, 1]}
+    arg = {"work": work, "salt": case["salt"]}
+    if case["move"] == "before":
+        _upstream_moves(arg)
+    elif case["move"] == "after-lsremote":
+        cfg["after_run_hooks"] = [{"match": "ls-remote", "call": "verifsim.checks.c07:_upstream_moves", "arg": arg}]
+    r = buildsim.bob(pb, ["dev", "-j", str(case["jobs"]), "--download", case["mode"], "root"], cfg)
+    moved = any(e[0] == "world-hook" for e in r.events)
+    restarted = "Restart build due to wrongly predicted sources" in r.output
+    log.append(("live", case["move"], case["drop"], r.rc, moved, restarted))
+    stats.inc("live_cases")
+    if moved:
+        stats.inc("fault_upstream_moved_after_prediction")
+    if restarted:
+        stats.inc("probe_restart_due_to_wrong_prediction")
+    if any(e[0] == "DEADLOCK" for e in r.events):
+        return {"kind": "deadlock", "detail": "downloader starved"}
+    if r.rc != 0:
+        return {"kind": "download-build-failed", "detail": "live scenario %s: rc=%d %s" % (log[-1], r.rc, r.output[-900:])}
+    # local clean build at the upstream state that the downloader ended up with
+    pc = os.path.join(top, "clean", "proj")
+    mk(pc)
+    # the downloader may legitimately be on the commit it predicted *or* on the new one; pin the
+    # clean build to the commit the downloader's lib sources are at (if it has sources), else to
+    # the mapping it predicted (old commit)
+    src = os.path.join(pb, "dev", "src", "lib", "1", "workspace")
+    if os.path.isdir(os.path.join(src, ".git")):
+        c = subprocess.run(["git", "rev-parse", "HEAD"], cwd=src, env=env, stdout=subprocess.PIPE).stdout.decode().strip()
+    else:
+        c = subprocess.run(["git", "rev-parse", "HEAD~1" if moved or case["move"] == "before" else "HEAD"], cwd=work, env=env,
+                           stdout=subprocess.PIPE).stdout.decode().strip()
+        if case["move"] == "before":
+            c = subprocess.run(["git", "rev-parse", "HEAD"], cwd=work, env=env, stdout=subprocess.PIPE).stdout.decode().strip()
+    lib = yaml.safe_load(files["recipes/lib.yaml"])
+    lib["checkoutSCM"] = {"scm": "git", "url": bare, "commit": c}
+    # same scripts, pinned commit: the *content* of all results must be the same
+    common.write_file(os.path.join(pc, "recipes/lib.yaml"), yaml.safe_dump(lib))
+    common.write_file(os.path.join(pc, "default.yaml"), "{}\n")
+    rc_ = buildsim.bob(pc, ["dev", "--download", "no", "root"], {"durations": [0]})
+    if rc_.rc != 0:
+        raise common.HarnessError("clean live build failed: " + rc_.output[-400:])
+    a = buildsim.results_of(pb, buildsim.dist_map(pb, True))
+    b = buildsim.results_of(pc, buildsim.dist_map(pc, True))
+    a = {k: v for k, v in a.items() if v is not None}
+    diffs = buildsim.compare(a, {k: v for k, v in b.items() if k in a})
+    if diffs or "root" not in a:
+        return {"kind": "downloaded-result-differs-from-local-build",
+                "detail": "live-build-id scenario (upstream move %s, dropped %s, mode %s, restarted=%s): results are not those of a "
+                          "consistent build of commit %s: %s" % (case["move"], case["drop"], case["mode"], restarted, c[:10], diffs)}
+    return None
+
 def _artifacts(arch):
     out = []
     for root, dirs, files in os.walk(arch):
@@ -105,6 +225,11 @@ def run_case(case):
     viol = None
     nontriv = False
     try:
+        if case.get("live"):
+            viol = _run_live(case, top, stats, log)
+            return {"violation": viol, "digest": common.digest_of(log), "stats": dict(stats),
+                    "nontrivial": bool(stats.get("fault_upstream_moved_after_prediction")),
+                    "sample": {"live": {k: v for k, v in case.items()}, "log": log}}
         arch = os.path.join(top, "archive")
         os.makedirs(arch)
         hostfile = os.path.join(top, "hostid")
